@@ -547,22 +547,22 @@ Qed.
 
 (* the executable property holds of the model on every well-formed input *)
 From Bfe Require Import run.RunC10.
-Lemma with_C10_ext f g i : (forall a b c d e, f a b c d e = g a b c d e) -> with_C10 f i = with_C10 g i.
+Theorem find_host_route_natural tbl host : find_host_route tbl host = spec_host tbl host.
+Proof. rewrite lookup_refines_spec. apply spec_paths_natural. Qed.
+Lemma with_C10_ext f g f' g' i :
+  (forall a b c d e, f a b c d e = f' a b c d e) -> (forall a b, g a b = g' a b) ->
+  with_C10 f g i = with_C10 f' g' i.
 Proof.
-  intros H. unfold with_C10. destruct i as [z|bs|l]; try reflexivity.
-  destruct l as [|es [|vs [|d [|qs [|x l]]]]]; try reflexivity. destruct d; try reflexivity.
-  destruct (dec_list dec_entry es); try reflexivity. destruct (dec_list dec_pair vs); try reflexivity.
-  destruct (dec_list dec_pair qs); try reflexivity. f_equal. apply map_ext. intros q. rewrite H. reflexivity.
+  intros Hf Hg. unfold with_C10. destruct (dec_C10 i) as [[pre stages]|]; [|reflexivity].
+  assert (Hq : forall t v d q, enc_query f g t v d q = enc_query f' g' t v d q).
+  { intros t v d q. unfold enc_query. rewrite Hf, Hg. reflexivity. }
+  f_equal. f_equal; [f_equal; apply map_ext; intros q; apply Hq|].
+  f_equal. f_equal. apply map_ext. intros st. unfold enc_stage. f_equal. apply map_ext. intros q. apply Hq.
 Qed.
-Theorem prop_C10_of_model i : run_C10 i <> VErr 0 -> prop_C10 i (run_C10 i) = true.
+Theorem prop_C10_of_model i : wf_C10 i = true -> kf_C10 i = 0 -> prop_C10 i (run_C10 i) = true.
 Proof.
-  unfold prop_C10, run_C10. intros Hne.
-  rewrite (with_C10_ext lookup_product spec_product i lookup_product_natural) in *.
-  set (s := with_C10 spec_product i) in *. clearbody s.
-  pose proof (val_eqb_refl s) as H.
-  destruct s as [z|bs|l]; try exact H.
-  destruct l as [|a l]; try exact H. destruct a as [z|bs|l']; try exact H.
-  destruct z as [|p|p]; try exact H. destruct p; try exact H.
-  destruct l as [|a2 l]; try exact H. destruct a2 as [z|bs|l']; try exact H.
-  destruct z; try exact H. destruct l; [|exact H]. exfalso. apply Hne. reflexivity.
+  intros Hwf _. unfold prop_C10, run_C10. rewrite Hwf. simpl.
+  rewrite (with_C10_ext lookup_product find_host_route spec_product spec_host i
+             lookup_product_natural find_host_route_natural).
+  apply val_eqb_refl.
 Qed.
